@@ -195,7 +195,7 @@ func init() {
 			})
 		}})
 
-	register(&Obligation{ID: "C08.c", Props: []string{"C08", "C17"}, Template: "copy-completeness",
+	register(&Obligation{ID: "C08.c", Props: []string{"C08", "C17", "C01"}, Template: "copy-completeness",
 		Desc: "wal.(*Writer).Rotate: every segment carried into the next writer keeps its sequence watermark (latestSeqNum), the active segment gets the writer's; otherwise the next Truncate drops unflushed entries",
 		Run: func(r *Run) {
 			f := r.P.Func("dkv/wal", "(*Writer).Rotate")
@@ -270,7 +270,7 @@ func init() {
 			}
 		}})
 
-	register(&Obligation{ID: "C08.d", Props: []string{"C08", "C17"}, Template: "order-domain+value-identity",
+	register(&Obligation{ID: "C08.d", Props: []string{"C08", "C17", "C01"}, Template: "order-domain+value-identity",
 		Desc: "wal.(*Writer).Truncate keeps exactly the suffix starting at the first segment whose latestSeqNum exceeds the flushed sequence number; Cut stamps the segment with the writer's latest sequence number; the checkpoint's WAL handle starts after the LatestSeqNum of the level list stored with it",
 		Run: func(r *Run) {
 			f := r.P.Func("dkv/wal", "(*Writer).Truncate")
@@ -426,7 +426,7 @@ func init() {
 			}
 		}})
 
-	register(&Obligation{ID: "C08.e", Props: []string{"C08", "C17"}, Template: "codec-agreement",
+	register(&Obligation{ID: "C08.e", Props: []string{"C08", "C17", "C01"}, Template: "codec-agreement",
 		Desc: "WAL record layout: Writer.Put / Writer.Delete, the reader's skip loop and the reader's read loop produce / consume the same token strings per record",
 		Run: func(r *Run) {
 			put := r.P.Func("dkv/wal", "(*Writer).Put")
